@@ -781,7 +781,13 @@ func (o *Oracle) readLoose(r wire.Req) *Fail {
 	if m > int64(r.N) {
 		return fail("read-announce", "more-than-limit", "READ announced %d > limit %d", m, r.N)
 	}
+	// the content is not judged here (e.g. a directory opened as a file): the announced bytes may
+	// arrive, or the connection may be ended inside them (prefix then EOF)
 	if _, f := o.readFull(r.Op, int(m), "READ body (free content)"); f != nil {
+		if f.Rule == "short-response" && o.Closed {
+			o.cover(r.Op, "free-cut")
+			return nil
+		}
 		return f
 	}
 	o.cover(r.Op, "free")
